@@ -39,6 +39,7 @@ func apiResume(w *lib.Writer, tier string, seed uint64) {
 		{"created-by-lua", `return coroutine.create(function(a, b) local c = coroutine.yield(a + b); return "fin", c end)`,
 			[]step{{n(1, 2), lua.ResumeYield, "[3]"}, {[]lua.LValue{lua.LString("x")}, lua.ResumeOK, "[fin x]"}, {nil, lua.ResumeError, ""}}, true},
 	}
+	firstCallInsideCoroutine(w)
 	for _, c := range cases {
 		func() {
 			what := ""
@@ -97,5 +98,50 @@ func apiResume(w *lib.Writer, tier string, seed uint64) {
 				what = "follow-up chunk: " + err.Error()
 			}
 		}()
+	}
+}
+
+// firstCallInsideCoroutine: the first Lua execution of a state may be a coroutine resumed from Go
+// (libraries opened without running anything): calls made from inside it (iterator of a generic
+// for, a metamethod) must not mistake the coroutine for the main thread.
+func firstCallInsideCoroutine(w *lib.Writer) {
+	what := ""
+	func() {
+		defer func() {
+			if r := recover(); r != nil {
+				what = fmt.Sprintf("Go panic escaped: %v", r)
+			}
+		}()
+		L := lua.NewState(lua.Options{SkipOpenLibs: true})
+		defer L.Close()
+		lua.OpenBase(L)
+		lua.OpenCoroutine(L)
+		fn, err := L.LoadString(`local log = {}
+local function it(s, c) if c < 3 then return c + 1 end end
+for i in it, nil, 0 do log[#log + 1] = i end
+local t = setmetatable({}, {__index = function(t, k) return k .. "!" end})
+log[#log + 1] = t.x
+local y = coroutine.yield(#log)
+return table and "lib" or (log[1] .. log[2] .. log[3] .. log[4] .. tostring(y))`)
+		if err != nil {
+			what = "load: " + err.Error()
+			return
+		}
+		co, _ := L.NewThread()
+		st, rerr, vals := L.Resume(co, fn)
+		if st != lua.ResumeYield || rerr != nil || fmt.Sprint(vals) != "[4]" {
+			what = fmt.Sprintf("first resume: state=%v err=%v values=%v, expected ResumeYield [4]", st, rerr, vals)
+			return
+		}
+		st, rerr, vals = L.Resume(co, fn, lua.LString("Y"))
+		if st != lua.ResumeOK || rerr != nil || fmt.Sprint(vals) != "[123x!Y]" {
+			what = fmt.Sprintf("second resume: state=%v err=%v values=%v, expected ResumeOK [123x!Y]", st, rerr, vals)
+		}
+	}()
+	id := w.Add(lib.Case{Input: map[string]any{"api-resume": "first-call-inside-coroutine"}, Observed: map[string]any{"failed": what != "", "what": what},
+		Class: "api-resume-first-call", Nontrivial: true, Coq: "CProg [] (Outcome [] (OOk []))"})
+	w.Meta.GoOnlyChecked++
+	if what != "" {
+		w.GoFail(id, "first call of a state inside a coroutine resumed from Go: "+what)
 	}
 }
